@@ -79,7 +79,7 @@ const c08MaxCommands = 220 // upper bound of data commands per variant used to s
 func init() {
 	core.Register(&core.Prop{
 		ID:          "C08",
-		MaxBatch: 250,
+		MaxBatch:    250,
 		Level:       "fault_enumeration",
 		Workers:     16,
 		CaseTimeout: 180e9,
@@ -247,7 +247,9 @@ func c08Execute(c *core.Case, variant, k int, kind string, log bool) (*c08run, s
 	return run, "", ""
 }
 
-func c08InProcCases(t string) int { return tierN(t, 3, len(c08Variants)) * c08MaxCommands * len(c08Kinds) }
+func c08InProcCases(t string) int {
+	return tierN(t, 3, len(c08Variants)) * c08MaxCommands * len(c08Kinds)
+}
 
 func runC08(c *core.Case) *core.Result {
 	if n := c08InProcCases(c.Tier); c.Index >= n+c08ProcCases(c.Tier) {
